@@ -1,6 +1,7 @@
 import PestModel.Model.StackDriver
 import PestModel.Model.LineColDriver
 import PestModel.Model.PrattDriver
+import PestModel.Model.PStateDriver
 
 open PestModel
 
@@ -17,4 +18,5 @@ def main (args : List String) : IO UInt32 := do
   | ["stack"] => loop stdin stdout StackDriver.runLine; return 0
   | ["linecol"] => loop stdin stdout LineColDriver.runLine; return 0
   | ["pratt"] => loop stdin stdout PrattDriver.runLine; return 0
+  | ["prog"] => loop stdin stdout PStateDriver.runLine; return 0
   | _ => IO.eprintln "usage: pestmodel <mode>"; return 2
